@@ -51,7 +51,7 @@ ASSUMPTIONS = [
 RTOL, ATOL, BTOL = 1e-9, 1e-9, 1e-7
 IVP_METHODS = ("DOP853", "RK45", "Radau", "BDF", "LSODA")
 SOLUTIONS = ("exp", "sinpoly", "lorentz")
-COEFFS = ("const", "callable", "mixed")
+COEFFS = ("const", "callable", "mixed", "zerolow")
 
 
 CASE_CPU_LIMIT = 120.0
@@ -141,6 +141,10 @@ def problem(order, cname, sname, x0=0.0):
     elif cname == "callable":
         a = [x / 2 + 1, sp.cos(x) / 2, 1 / (2 + x**2), 1 + x**2 / 10][: order + 1]
         a[order] = [2 + sp.sin(x), 1 + x**2 / 10, 1 + sp.exp(-x) / 2][order - 1]
+    elif cname == "zerolow":
+        # every lower-order coefficient exactly zero, leading coefficient not 1 (values that special-case code paths
+        # like "skip vanishing rows" react to; added with seeded change C20-D)
+        a = [sp.Float(0.0)] * order + [sp.Float([4.0, 2.0, 3.0][order - 1])]
     else:
         a = [sp.Float(0.3), x, sp.Float(-1.0), sp.Float(1.0)][: order + 1]
         a[order] = [1 + x**2 / 4, sp.Float(2.0), 2 + sp.cos(x)][order - 1]
